@@ -106,6 +106,9 @@ func genC11StepsAt(t *rapid.T, depth int, top bool) []Step {
 					if st.Shape == "closure" || st.Shape == "helper_same" {
 						st.Shape = rapid.SampledFrom([]string{"direct", "helper_nontest", "helper_pkg"}).Draw(t, "suiteshape")
 					}
+					if st.Shape == "helper_testingfile" {
+						st.Shape = "helper_pkg" // (the suite file has its own, smaller set of call shapes)
+					}
 					inner = append(inner, st)
 				}
 				steps = append(steps, Step{Op: "sub", Name: name, Suite: true, Steps: inner})
@@ -117,7 +120,7 @@ func genC11StepsAt(t *rapid.T, depth int, top bool) []Step {
 		api := rapid.SampledFrom([]string{"snap", "json", "yaml", "ssnap", "sjson"}).Draw(t, "api")
 		val := map[string]string{"snap": "value", "ssnap": "value", "json": `{"a":1}`, "sjson": `{"a":1}`, "yaml": "a: 1\n"}[api]
 		st := Step{Op: "call", API: api, Cfg: genC11Cfg(t), Value: val,
-			Shape: rapid.SampledFrom([]string{"direct", "closure", "helper_same", "helper_nontest", "helper_pkg"}).Draw(t, "shape"),
+			Shape: rapid.SampledFrom([]string{"direct", "closure", "helper_same", "helper_nontest", "helper_pkg", "helper_testingfile"}).Draw(t, "shape"),
 			Depth: rapid.SampledFrom([]int{0, 1, 2, 3, 3, 40, 100}).Draw(t, "depth")}
 		if api != "snap" && api != "ssnap" && rapid.IntRange(0, 7).Draw(t, "rejected") == 0 {
 			// a call that is rejected (input is not JSON / YAML): it is the k-th call of its test all the same
